@@ -285,9 +285,19 @@ class Entity(Block):
 
         for name, value in kwargs.items():
             if name in info.ports:
+                port = info.ports[name]
+
                 try:
-                    # try assignment to check if types are compatible
-                    info.ports[name] <<= value
+                    # try assignment in the direction of the data flow
+                    # to check if types are compatible
+                    if not port.is_input():
+                        Port.decay(value).copy()._assign(Port.decay(port))
+                    if not port.is_output():
+                        port <<= value
+
+                    # a port association cannot resize the actual
+                    if hasattr(port, "width") and hasattr(value, "width"):
+                        assert port.width == value.width
                 except:
                     raise AssertionError(
                         f"assignment to port '{name}' failed (src={value}, target={info.ports[name]})"
